@@ -40,6 +40,7 @@ def run(ctx):
         "Only the three necessary clauses above are decided.",
     ]
     ctx.section(c02._align_emit, ctx.view(lambda w: True, rule="C04.align"), index)
+    ctx.section(c02._exacttype, ctx, index, "C04.exacttype")
     ctx.section(_nodefault, ctx, index, env)
     ctx.section(_classdefault, ctx, index, env)
     ctx.section(_required, ctx, index)
